@@ -111,7 +111,7 @@ StreamViol(t) ==
        \cup (IF t.st.len = Len(t.pre.live) THEN {} ELSE {<<l, "RtLen">>})
        \cup (IF t.st.bytes = t.pre.bytes THEN {} ELSE {<<l, "RtBytes">>})
        \cup (IF t.st.tomb = 0 /\ t.st.dang = 0 THEN {} ELSE {<<l, "RtStale">>})
-       \cup (IF t.unread = 0 THEN {} ELSE {<<l, "RtUnread">>})
+       \cup (IF t.unread = 0 THEN {} ELSE {<<l, "RtUnread">>})       \* > 0: bytes left over, < 0: read past its own end
 
 Fatal(t) == IF t.res \in {"panic", "fatal", "lost"} THEN {<<l, "Outcome_" \o t.res>>} ELSE {}
 ErrMap(t) == [i \in {t.errs[j][1] : j \in 1..Len(t.errs)} |->
